@@ -22,14 +22,14 @@ TRUSTED_BASE = [
 ASSUMPTIONS = ["number literals are within the exactly representable range |n| <= 2^53 and floats print without exponent (others are out of the property's stated range)"]
 TECHNIQUE = "generation of valid queries from the AST + lexical-variation renderer, validity decided by Coq-extracted grammar recognizer and typing judgement, differential against compile(); model correspondence; partial Coq theorems"
 LEVEL = "proof"
-LEVEL_TEXT = ("Proved, for every registry and integer range, relative to the spelling relation of Proofs/LexSpell.v (gaps decided by an abstract machine over token types): C03_complete_spelled - EVERY spelling of "
+LEVEL_TEXT = ("Proved, for every registry and integer range, relative to the spelling relation of Proofs/LexSpell.v (gaps decided by an abstract machine over token types): C03_complete_spelled / C03_exact_spelled - EVERY spelling of "
               "EVERY token sequence the typed token grammar derives compiles, to the query derived: blanks wherever the lexical layer allows them, dot shorthand or brackets, either quote style with any escape form, "
-              "any integer spelling, operators / keywords / parentheses / nested filters / function calls with the lexer's three stacks threaded through the induction (Proofs/LexComplete.v, LexCompleteF.v: forward "
-              "simulation of the state machine with maximal-munch and FOLLOW facts; number literals with an exponent part are the one spelling not covered); C03_accepts_only_spellings and C04_sound - the converse: "
+              "any number spelling (fraction, exponent with or without sign), operators / keywords / parentheses / nested filters / function calls with the lexer's three stacks threaded through the induction (Proofs/LexComplete.v, LexCompleteF.v: forward "
+              "simulation of the state machine with maximal-munch and FOLLOW facts) and nothing else compiles; C03_accepts_only_spellings and C04_sound - the converse: "
               "compile accepts only spellings, and every spelling is derivable from the ABNF; C05_complete_tokens / C03_tokens_complete - the parser on every derivable token sequence; C03_canonical_text. "
-              "NOT proved (partial): that every valid string of the ABNF is a spelling in that sense (ABNF derivations -> token-grammar derivations), and exponent spellings; "
+              "NOT proved (partial): that every valid string of the ABNF is a spelling in that sense (ABNF derivations -> token-grammar derivations); "
               "every generated valid query, rendered in every lexical form, must compile to the generating structure.")
-LEVEL_NOTE = "Partial only in the link ABNF -> spellings and in exponent spellings. Trusted: Coq kernel, grammar transcription, the spelling relation (Proofs/LexSpell.v astep) as a reading of where the ABNF allows blanks, renderer (self-checked), extraction and driver."
+LEVEL_NOTE = "Partial only in the link ABNF -> spellings. Trusted: Coq kernel, grammar transcription, the spelling relation (Proofs/LexSpell.v astep) as a reading of where the ABNF allows blanks, renderer (self-checked), extraction and driver."
 
 
 def nest(rng, depth):
